@@ -41,6 +41,38 @@ import ttconv.imsc.style_properties as imsc_styles
 
 LOGGER = logging.getLogger(__name__)
 
+# attributes that TTML2 defines in no namespace and in the TT Parameter namespace, on any element
+_TTML_ATTRIBUTES = frozenset((
+  "animate", "begin", "calcMode", "combine", "condition", "designator", "dur", "end", "extends", "fill", "format", "keySplines", "keyTimes",
+  "length", "region", "repeatCount", "restricts", "src", "style", "timeContainer", "type", "use", "value"
+))
+
+_TTP_ATTRIBUTES = frozenset((
+  "cellResolution", "clockMode", "contentProfiles", "contentProfileCombination", "displayAspectRatio", "dropMode", "frameRate",
+  "frameRateMultiplier", "inferProcessorProfileMethod", "inferProcessorProfileSource", "markerMode", "permitFeatureNarrowing",
+  "permitFeatureWidening", "pixelAspectRatio", "processorProfiles", "processorProfileCombination", "profile", "subFrameRate", "tickRate",
+  "timeBase", "validation", "validationAction", "version"
+))
+
+def _report_unknown_attributes(tt_elem: et.Element):
+  '''Logs the attributes of the TT elements of the document that TTML does not define: such attributes are ignored
+  '''
+  for xml_elem in tt_elem.iter():
+
+    if not isinstance(xml_elem.tag, str) or not xml_elem.tag.startswith(f"{{{xml_ns.TTML}}}"):
+      continue
+
+    for attr in xml_elem.attrib:
+      if not attr.startswith("{"):
+        if attr not in _TTML_ATTRIBUTES:
+          LOGGER.warning("Unknown attribute ignored: %s", attr)
+      elif attr.startswith(f"{{{xml_ns.TTP}}}"):
+        if attr[len(xml_ns.TTP) + 2:] not in _TTP_ATTRIBUTES:
+          LOGGER.warning("Unknown parameter attribute ignored: %s", attr)
+      elif xml_elem is tt_elem and attr != imsc_attr.ExtentAttribute.qn:
+        # style attributes of other elements are reported where they are processed
+        _report_unknown_style_attribute(attr)
+
 def _report_unknown_style_attribute(attr: str):
   '''Logs an attribute in the TT Style namespace that is not a supported style property and is therefore ignored
   '''
@@ -135,6 +167,8 @@ class TTElement(TTMLElement):
     '''
 
     tt_ctx = TTElement.ParsingContext(TTElement)
+
+    _report_unknown_attributes(xml_elem)
 
     # process attributes
 
